@@ -71,6 +71,7 @@ type vcCase struct {
 	payload   int
 	handlerAs map[int]bool
 	log       []string // records of this case
+	panics    []string
 	steps     int
 }
 
@@ -334,6 +335,14 @@ func (c *vcCase) envCall() string {
 	cl := &vcCall{n: len(c.calls) + 1, ctx: ctx, cancel: cancel}
 	c.calls = append(c.calls, cl)
 	go func() {
+		defer func() {
+			// a panic on the caller's goroutine (e.g. "retire called twice") is an observation, not a crash
+			if r := recover(); r != nil {
+				cl.res = "panic"
+				cl.done = true
+				c.panics = append(c.panics, fmt.Sprint(r))
+			}
+		}()
 		var res vcResult
 		err := call(ctx, c.conn, "m", nil, &res)
 		cl.res = vcClassify(err, &res)
